@@ -114,5 +114,5 @@ RECURSIVE CountH(_,_,_)
 CountH(k, rest, c) == IF rest = {} THEN c ELSE
    LET h == CHOOSE x \in rest : TRUE IN CountH(k, rest \ {ConjH(h, t) : t \in PermsOf(k)}, c + 1)
 \* number of conjugacy classes of subgroups of index exactly k
-NumClasses(n, k, rels) == IF n = 0 THEN (IF k = 1 THEN 1 ELSE 0) ELSE CountH(k, TransHoms(n, k, rels), 0)
+NumSubgroupClasses(n, k, rels) == IF n = 0 THEN (IF k = 1 THEN 1 ELSE 0) ELSE CountH(k, TransHoms(n, k, rels), 0)
 =============================================================================
